@@ -87,7 +87,44 @@ type LEvent struct {
 	Write  bool
 }
 
+// GAtom is a branch condition known to hold at an instruction, with its
+// operands resolved in the inlining context where it was met.
+type GAtom struct {
+	Pos bool      // polarity: the condition value is true
+	V   ssa.Value // condition (negations stripped)
+	Op  string    // binop operator, "call" or "value"
+	X   *Org
+	Y   *Org
+	R   *Resolver
+}
+
+func (g GAtom) String() string {
+	sign := ""
+	if !g.Pos {
+		sign = "!"
+	}
+	switch g.Op {
+	case "call", "value":
+		return sign + "(" + trimOrg(g.X.String()) + ")"
+	}
+	return sign + "(" + trimOrg(g.X.String()) + " " + g.Op + " " + trimOrg(g.Y.String()) + ")"
+}
+
+// VisitCtx is what a visitor sees for every instruction of the inlined cone.
+type VisitCtx struct {
+	Fn     *ssa.Function
+	R      *Resolver
+	Ins    ssa.Instruction
+	Held   []string
+	Stack  []string
+	Guards []GAtom // guards of the enclosing call chain + of the instruction
+	EP     string
+	W      *LockWalker
+}
+
 type LockWalker struct {
+	Visit    func(*VisitCtx)
+	gstack   [][]GAtom
 	P        *Prog
 	Events   []LEvent
 	Visited  map[*ssa.Function]bool
@@ -319,6 +356,13 @@ func envKey(r *Resolver, fn *ssa.Function) string {
 func (w *LockWalker) step(fn *ssa.Function, r *Resolver, ins ssa.Instruction, st LState, rec bool, stack []string, defers []*ssa.Defer) LState {
 	pos := w.P.InstrPos(ins)
 	fname := funcDisplayName(fn)
+	if rec && w.Visit != nil {
+		if _, isRD := ins.(*ssa.RunDefers); !isRD {
+			if _, isDefer := ins.(*ssa.Defer); !isDefer {
+				w.Visit(&VisitCtx{Fn: fn, R: r, Ins: ins, Held: st.heldList(), Stack: stack, Guards: append(w.ctxGuards(), guardAtoms(r, ins)...), EP: w.EP, W: w})
+			}
+		}
+	}
 	switch x := ins.(type) {
 	case *ssa.MakeClosure:
 		w.closures[x] = r
@@ -353,6 +397,9 @@ func (w *LockWalker) step(fn *ssa.Function, r *Resolver, ins ssa.Instruction, st
 			}
 			if !reachesInstr(d, ins) {
 				continue
+			}
+			if rec && w.Visit != nil {
+				w.Visit(&VisitCtx{Fn: fn, R: r, Ins: d, Held: st.heldList(), Stack: append(stack, "defer"), Guards: append(w.ctxGuards(), guardAtoms(r, d)...), EP: w.EP, W: w})
 			}
 			st = w.call(fn, r, d, cc, st, rec, append(stack, "defer"))
 		}
@@ -562,7 +609,9 @@ func (w *LockWalker) call(fn *ssa.Function, r *Resolver, ins ssa.Instruction, cc
 			if name, ok := w.mapMethod(cal); ok && len(args) > 0 {
 				w.ev(rec, LEvent{Kind: "mapop", What: pathName(r.Of(args[0])), Detail: name, Pos: pos, Fn: fname, Held: st.heldList(), Stack: stack})
 			}
+			w.gstack = append(w.gstack, guardAtoms(r, ins))
 			res = w.analyze(cal, nr, st, rec, append(append([]string{}, stack...), funcDisplayName(cal)))
+			w.gstack = w.gstack[:len(w.gstack)-1]
 		}
 		if first {
 			out = res
@@ -593,5 +642,36 @@ func (w *LockWalker) cgCallees(ins ssa.Instruction) []*ssa.Function {
 		}
 	}
 	sort.Slice(out, func(i, j int) bool { return out[i].String() < out[j].String() })
+	return out
+}
+
+
+// guardAtoms renders the guards of an instruction in resolver r.
+func guardAtoms(r *Resolver, ins ssa.Instruction) []GAtom {
+	var out []GAtom
+	for _, g := range GuardsOf(ins) {
+		a := atomsOf(g)
+		ga := GAtom{Pos: a.Pos, V: a.V, R: r}
+		switch x := a.V.(type) {
+		case *ssa.BinOp:
+			ga.Op = x.Op.String()
+			ga.X, ga.Y = r.Of(x.X), r.Of(x.Y)
+		case *ssa.Call:
+			ga.Op = "call"
+			ga.X = r.Of(x)
+		default:
+			ga.Op = "value"
+			ga.X = r.Of(a.V)
+		}
+		out = append(out, ga)
+	}
+	return out
+}
+
+func (w *LockWalker) ctxGuards() []GAtom {
+	var out []GAtom
+	for _, g := range w.gstack {
+		out = append(out, g...)
+	}
 	return out
 }
